@@ -18,7 +18,7 @@ import random
 import shutil
 import subprocess
 import tempfile
-from concurrent.futures import ThreadPoolExecutor
+import multiprocessing as mp
 
 ROOT = os.path.dirname(os.path.dirname(os.path.abspath(__file__)))
 sys.path.insert(0, ROOT)
@@ -223,8 +223,9 @@ def main():
     bad = []
     compared = undefined = 0
     try:
-        with ThreadPoolExecutor(max_workers=int(os.environ.get("VERIF_NPROC", "6"))) as ex:
-            for b, c, u in ex.map(check_one, jobs):
+        # processes, not threads: the z3 default context is not thread-safe
+        with mp.get_context("fork").Pool(int(os.environ.get("VERIF_NPROC", "6"))) as pool:
+            for b, c, u in pool.imap_unordered(check_one, jobs, chunksize=4):
                 bad += b
                 compared += c
                 undefined += u
